@@ -183,7 +183,9 @@ def reset(ctx, c, R="R-C04-reset"):
     # reads of an attribute in compute_chunk before it is re-initialised there invalidate (b)
     read_first = _read_before_reinit(prog, chunk, names)
     for attr in sorted(names):
-        if (c.short, attr) in EXEMPT:
+        # the exemption speaks of the buffer's contents: it covers in-place writes only.  Re-binding the attribute makes its dtype
+        # and size part of the state that outlives the utterance
+        if (c.short, attr) in EXEMPT and all(kind in ("partial", "fill") for _, kind, _ in M[attr]):
             ctx.ok(R, c.loc(), "%s.%s exempt: %s" % (c.name, attr, EXEMPT[(c.short, attr)]))
             ctx.assume("R-C04-reset exemption %s.%s: %s" % (c.name, attr, EXEMPT[(c.short, attr)]))
             continue
